@@ -86,11 +86,26 @@ func SymbolicKeyset(maxN int, kindsOf []int, withLegacy bool) *KS {
 // StubSerialization replaces the registry-backed key serialization by a stub that reports
 // the FKey's prefix type and id requirement.
 func StubSerialization() {
-	verifrt.Summarize("internal/protoserialization.SerializeKey", func(k key.Key) (*protoserialization.KeySerialization, error) {
-		fk := k.(*FKey)
-		pt := [...]tinkpb.OutputPrefixType{tinkpb.OutputPrefixType_TINK, tinkpb.OutputPrefixType_CRUNCHY, tinkpb.OutputPrefixType_LEGACY, tinkpb.OutputPrefixType_RAW}[fk.Kind]
-		return protoserialization.NewKeySerialization(&tinkpb.KeyData{TypeUrl: "type.googleapis.com/google.crypto.tink.Stub", KeyMaterialType: tinkpb.KeyData_SYMMETRIC}, pt, fk.req())
-	})
+	verifrt.Summarize("internal/protoserialization.SerializeKey", serializeFKey)
+	if !verifrt.Symbolic() && !registered {
+		// natively the same stub is registered with the real registry
+		registered = true
+		protoserialization.RegisterKeySerializer[*FKey](fkeySerializer{})
+	}
+}
+
+var registered bool
+
+type fkeySerializer struct{}
+
+func (fkeySerializer) SerializeKey(k key.Key) (*protoserialization.KeySerialization, error) {
+	return serializeFKey(k)
+}
+
+func serializeFKey(k key.Key) (*protoserialization.KeySerialization, error) {
+	fk := k.(*FKey)
+	pt := [...]tinkpb.OutputPrefixType{tinkpb.OutputPrefixType_TINK, tinkpb.OutputPrefixType_CRUNCHY, tinkpb.OutputPrefixType_LEGACY, tinkpb.OutputPrefixType_RAW}[fk.Kind]
+	return protoserialization.NewKeySerialization(&tinkpb.KeyData{TypeUrl: "type.googleapis.com/google.crypto.tink.Stub", KeyMaterialType: tinkpb.KeyData_SYMMETRIC}, pt, fk.req())
 }
 
 // ---- recording monitoring client
